@@ -1,7 +1,7 @@
 """C11 — the socket driver preserves the byte stream under any fragmentation."""
 import itertools, socket
 import boot
-from lib import wire, modelproc
+from lib import wire
 from lib.shrink import shrink_seq
 
 TABLES = ['T11']
@@ -19,6 +19,8 @@ TRUSTED = ['IrcMsg(line) (subject of C05) enters the theorems as an arbitrary fu
            'table line -> exception that the harness computes with the real constructor',
            'decode_raw_line and the str.strip() whitespace set are arbitrary parameters of the incoming theorems; the executable instance is a '
            'Gallina model of CPython utf-8/replace decoding (diffed on every run) and the regenerated str.isspace table',
+           'the except clause around drivers.parseMsg in _read (C07.F4 repair) is regenerated into READ_CATCHES; that IrcMsg raises nothing else (C05.F3 repair) is '
+           'the hypothesis of C11_in_reads_never_killed, counted per run in input_distribution (hypothesis:parser-raised-uncaught-exception must stay absent)',
            'the dispatch loop (drivers.run / SocketDriver._select / run) is replaced by the event script; "an exception leaving _read/_sendIfMsgs '
            'ends the driver" is drivers.run\'s except clause, emulated by the harness and by the model field `dead`',
            'reconnect(), die()/zombie, starttls and SSLError paths are not modelled (a leftover outbuffer surviving reconnect() is outside the theorems)']
@@ -27,11 +29,13 @@ ASSUMPTIONS = ['world.testing/log.testing off', 'charade not importable (checked
                'send() returns 0..len(data) or raises socket.error; recv() returns <= 1024 bytes']
 LEVEL_TEXT = ('Coq theorems over an executable Gallina model of SocketDriver._sendIfMsgs/_handleSocketError/_read + drivers.parseMsg: for every event trace '
               '(any interleaving of sends, reads, partial writes, EAGAIN, errors, timeouts) the messages fed to the bot are a function of the concatenated '
-              'received bytes alone (hence equal for any two partitions of a stream, whatever the decoder and parser), the unparsed remainder is the last piece; '
-              'the outgoing invariant wire ++ utf8(outbuffer) = utf8(taken messages) holds exactly on the traces in which no short write ended beyond a non-ASCII '
-              'character (all-ASCII traffic and traces with only complete writes are proved inside), is refuted outside (finding F11, str buffer sliced by a byte count) and provably '
-              'fails on every trace outside; the buffer drains under sends returning > 0; an EAGAIN moves no byte and keeps the connection exactly up to the regenerated limit.  A failure is attributed to F11 only if the trace is outside the extracted out_dom AND the implementation behaves on it exactly as the model of the pinned code.  Tied to the source by regenerated constants (EAGAIN code and limit, '
-              'line separator, whitespace set) and a per-event differential run of the extracted model against the real driver on every check.')
+              'received bytes alone (hence equal for any two partitions of a stream, whatever the decoder and parser), the unparsed remainder is the last piece; a line the '
+              'parser rejects with a caught exception is skipped and, if the parser raises nothing else, no byte stream can end the driver; '
+              'the outgoing invariant wire ++ outbuffer = utf8(text of the messages that entered the buffer) holds on EVERY trace (finding C11.F11 repaired: the '
+              'out-buffer holds the unsent bytes), that text being all text taken from the queue unless a last batch had no UTF-8 encoding (its exception ends the '
+              'driver); the buffer drains under sends returning > 0; an EAGAIN moves no byte and keeps the connection exactly up to the regenerated limit.  '
+              'Tied to the source by regenerated constants (EAGAIN code and limit, line separator, whitespace set, bytes out-buffer) and a per-event '
+              'differential run of the extracted model against the real driver on every check.')
 LEVEL_NOTE = ('Trusted: Coq kernel, gen_tables.py, extraction + OCaml driver, the Python harness (fake socket, stub irc, emulation of drivers.run\'s '
               'kill-on-exception); IrcMsg/decode/strip are parameters of the theorems; reconnect/die/TLS not modelled; Python code is modelled, not verified.')
 TECHNIQUE = 'Coq proof (trace invariants by induction, list-splitting lemmas) + regenerated tables + extracted-model differential correspondence per event'
@@ -160,7 +164,7 @@ def snap(d, irc, conn, dead):
     ib, ob = d.inbuffer, d.outbuffer
     return [1 if d.connected else 0, dead, d.eagains,
             list(ib) if isinstance(ib, (bytes, bytearray)) else ['inbuffer is %s' % type(ib).__name__],
-            [ord(c) for c in ob] if isinstance(ob, str) else ['outbuffer is %s' % type(ob).__name__],
+            list(ob) if isinstance(ob, (bytes, bytearray)) else ['outbuffer is %s' % type(ob).__name__],
             len(conn.wire), len(irc.fed)]
 
 
@@ -231,7 +235,7 @@ def w_trace(events, op=0):
 def dec_model(out):
     snaps = [[s[0], s[1], s[2], s[3], s[4], s[5], s[6]] for s in out[0]]
     f = out[1]
-    return snaps, [f[0], f[1], f[2], wire.ls(f[3])], bool(f[4])
+    return snaps, [f[0], f[1], f[2], wire.ls(f[3])]
 
 
 # ---------------------------------------------------------------- oracle
@@ -281,50 +285,27 @@ def check_trace(ctx, events, mout, kind):
                                'disconnected' if not last[0] else 'alive-pending' if last[4] else 'alive-drained')] += 1
         if any(s[2] > 0 for s in snaps):
             ctx.dist['outcome:saw-eagain'] += 1
-    agreed = False
-    slipped = None
+    if any(code != 8 for _, code in parse_table(events)):
+        # hypothesis of C11_in_reads_never_killed (the parser raises only what _read catches) fails on this trace
+        ctx.dist['hypothesis:parser-raised-uncaught-exception'] += 1
     if mout is not None:
         if isinstance(mout, tuple):
             ctx.disagree(inp, mout, None, 'model crashed')
         else:
-            msnaps, mfinal, slipped = dec_model(mout)
+            msnaps, mfinal = dec_model(mout)
             if msnaps != snaps:
                 i = next((j for j, (a, b) in enumerate(zip(msnaps, snaps)) if a != b), -1)
                 ctx.disagree(inp, msnaps[i] if i >= 0 else len(msnaps), snaps[i] if i >= 0 else len(snaps),
                              'driver attributes after event %d [connected, dead, eagains, inbuffer, outbuffer, |wire|, |fed|]' % i)
             elif mfinal != final:
                 ctx.disagree(inp, mfinal, final, 'observations [wire, taken, received, fed]')
-            else:
-                agreed = True
-            ctx.dist['out_dom:' + ('outside' if slipped else 'inside')] += 1
     d = direct_oracle(events)
     if d:
-        if slipped is not None:
-            # same decision as is_f11(), from the batch run (saves one model process per failure)
-            _class_cache[wire.enc(w_trace(events))] = bool(slipped and agreed)
         ctx.fail(inp, d)
 
 
-_class_cache = {}
-
-
-def is_f11(inp):
-    """class predicate of finding F11, decided by the extracted model: the trace is outside out_dom (a short
-    write ended beyond a non-ASCII character) AND the implementation behaves on it exactly as the model of
-    the pinned code does (same attributes after every event, same wire bytes) -- a failure that the model
-    does not reproduce is something else"""
-    if inp.get('op') != 'trace':
-        return False
-    key = wire.enc(w_trace(inp['events']))
-    if key not in _class_cache:
-        mout = modelproc.run('C11', [w_trace(inp['events'])])[0]
-        snaps, final, _ = run_impl(inp['events'])
-        msnaps, mfinal, slipped = dec_model(mout)
-        _class_cache[key] = bool(slipped and msnaps == snaps and mfinal == final)
-    return _class_cache[key]
-
-
-CLASSES = {'str_sliced_by_byte_count': is_f11}
+# no known finding is left for this property (C11.F11 was repaired): every failure is a violation
+CLASSES = {}
 
 
 # ---------------------------------------------------------------- generators
@@ -343,7 +324,9 @@ def data(b):
 DRAIN = [ev_send([], ('sent', BIG)), ev_send([], ('sent', BIG))]
 
 CORPUS = [
-    # F11: 'héllo', short write ending after the first byte of 'é'
+    # the witness of the repaired finding C11.F11 ('héllo', send() accepts 3 of 6 bytes): runs first on every check
+    [ev_send(['h\xe9llo'], ('sent', 3)), ev_send([], ('sent', BIG))],
+    # short writes ending inside / after a multi-byte character
     [ev_send(['PRIVMSG #c :h\xe9llo\r\n'], ('sent', 14))] + DRAIN,
     [ev_send(['h\xe9llo'], ('sent', 2))] + DRAIN,
     [ev_send(['h\xe9llo'], ('sent', 3))] + DRAIN,
@@ -525,15 +508,7 @@ def replay(ctx, inp):
 def shrink(ctx, inp):
     if inp.get('op') != 'trace':
         return inp
-    def bad(evs):
-        # still failing, and still not an instance of the recorded finding (do not drift into it)
-        evs = list(evs)
-        if direct_oracle(evs) is None:
-            return False
-        try:
-            return not is_f11({'op': 'trace', 'events': evs})
-        except Exception:
-            return True
+    bad = lambda evs: direct_oracle(list(evs)) is not None
     evs = shrink_seq(list(inp['events']), bad)
     # shorten message lists and chunks
     for i in range(len(evs)):
